@@ -307,7 +307,7 @@ fn vie_seq_u64<const N: usize, const L: usize>(s: VarIntStrategy, cls: [(u64, u6
 /// Value classes a strategy's wire format cannot represent (delta of 2^63 or more, group-varint
 /// values of 2^32 or more): the encoder must either refuse them with Err or produce bytes that decode
 /// back to the same values - never bytes that decode to something else.
-fn vie_seq_u64_edge<const N: usize>(s: VarIntStrategy, cls: [(u64, u64); N]) {
+fn vie_seq_u64_edge<const N: usize, const L: usize>(s: VarIntStrategy, cls: [(u64, u64); N]) {
     let enc = VarIntEncoder::new(s);
     let mut vals = [0u64; 5];
     let mut i = 0;
@@ -317,31 +317,30 @@ fn vie_seq_u64_edge<const N: usize>(s: VarIntStrategy, cls: [(u64, u64); N]) {
         i += 1;
     }
     let r = enc.encode_u64_sequence(&vals[..N]);
-    match &r {
-        Err(_) => {
+    let bytes = match r {
+        Err(e) => {
+            forget(e);
             zcover!(true, "encoder refused the unrepresentable values");
+            return;
         }
-        Ok(bytes) => {
-            let d = enc.decode_u64_sequence(&bytes[..]);
-            match &d {
-                Ok(out) => {
-                    assert!(out.len() == N, "decoded sequence has a different length");
-                    let mut i = 0;
-                    while i < N {
-                        assert!(out[i] == vals[i], "u64 sequence element does not round-trip");
-                        i += 1;
-                    }
-                }
-                Err(_) => panic!("decoder refused the encoder's own output"),
-            }
-            forget(d);
-        }
+        Ok(b) => b,
+    };
+    // same concrete re-shaping as the ordinary sequence harnesses (L = length of the encoding)
+    let copy = rematerialise::<N, L>(&bytes);
+    let out = must(enc.decode_u64_sequence(&copy[..L]), "decoder refused the encoder's own output");
+    assert!(out.len() == N, "decoded sequence has a different length");
+    let mut i = 0;
+    while i < N {
+        assert!(out[i] == vals[i], "u64 sequence element does not round-trip");
+        i += 1;
     }
-    forget(r);
+    zcover!(true, "opt: encoder accepted and the values round-trip");
+    forget(bytes);
+    forget(out);
 }
 
 macro_rules! c13_vie_seq_u64_edge {
-    ($name:ident, $tier:ident, $unwind:literal, $strat:ident, $n:literal, [$($cls:expr),*]) => {
+    ($name:ident, $tier:ident, $unwind:literal, $strat:ident, $n:literal, $l:literal, [$($cls:expr),*]) => {
         zv_harness! {
             name: $name,
             prop: "C13",
@@ -351,7 +350,7 @@ macro_rules! c13_vie_seq_u64_edge {
             targets: "VarIntEncoder::{encode_u64_sequence, decode_u64_sequence} for the strategy of the instance, value classes outside the wire format's range",
             bounds: "instance = (strategy, n, value class per element): each element symbolic inside its class",
             oracle: "encode returns Err, or its bytes decode to exactly the input (never a silently different sequence)",
-            body: { vie_seq_u64_edge::<$n>(VarIntStrategy::$strat, [$($cls),*]) }
+            body: { vie_seq_u64_edge::<$n, $l>(VarIntStrategy::$strat, [$($cls),*]) }
         }
     };
 }
@@ -432,9 +431,9 @@ c13_vie_seq_u64!(c13_vie_delta_seq_u64_n0, thorough, 12, Delta, 0, 1, []);
 c13_vie_seq_u64!(c13_vie_delta_seq_u64_n1_w10, thorough, 12, Delta, 1, 11, [ul(10)]);
 c13_vie_seq_u64!(c13_vie_delta_seq_u64_n2_w2_w2, quick, 12, Delta, 2, 5, [ul(2), ul(2)]);
 c13_vie_seq_u64!(c13_vie_delta_seq_u64_n2_mid_down, thorough, 12, Delta, 2, 19, [(1u64 << 56, (1u64 << 62) - 1), ul(1)]);
-c13_vie_seq_u64_edge!(c13_vie_delta_seq_u64_n2_up_big, quick, 12, Delta, 2, [(0, 0), (1u64 << 63, u64::MAX)]);
-c13_vie_seq_u64_edge!(c13_vie_delta_seq_u64_n2_down_big, quick, 12, Delta, 2, [(1u64 << 63, u64::MAX), (0, 0)]);
-c13_vie_seq_u64_edge!(c13_vie_delta_seq_u64_n2_any, thorough, 12, Delta, 2, [(0, u64::MAX), (0, u64::MAX)]);
+c13_vie_seq_u64_edge!(c13_vie_delta_seq_u64_n2_up_big, quick, 12, Delta, 2, 12, [ul(1), (1u64 << 63, u64::MAX)]);
+c13_vie_seq_u64_edge!(c13_vie_delta_seq_u64_n2_down_big, quick, 12, Delta, 2, 21, [(1u64 << 63, u64::MAX), ul(1)]);
+c13_vie_seq_u64_edge!(c13_vie_delta_seq_u64_n2_any_l21, thorough, 12, Delta, 2, 21, [(0, u64::MAX), (0, u64::MAX)]);
 c13_vie_seq_i64!(c13_vie_delta_seq_i64_n0, thorough, 12, Delta, 0, 1, []);
 c13_vie_seq_i64!(c13_vie_delta_seq_i64_n1_k10, thorough, 12, Delta, 1, 11, [sl(10)]);
 c13_vie_seq_i64!(c13_vie_delta_seq_i64_n2_k1_k1, quick, 12, Delta, 2, 4, [sl(1), sl(1)]);
@@ -443,10 +442,10 @@ c13_vie_seq_i64!(c13_vie_delta_seq_i64_n2_overflow, quick, 12, Delta, 2, 21, [(i
 c13_vie_seq_u64!(c13_vie_group_seq_u64_n0, thorough, 12, GroupVarint, 0, 1, []);
 c13_vie_seq_u64!(c13_vie_group_seq_u64_n1_w1, thorough, 12, GroupVarint, 1, 3, [ub(1)]);
 c13_vie_seq_u64!(c13_vie_group_seq_u64_n1_w4, quick, 12, GroupVarint, 1, 6, [ub(4)]);
-c13_vie_seq_u64_edge!(c13_vie_group_seq_u64_n1_w5, quick, 12, GroupVarint, 1, [ub(5)]);
-c13_vie_seq_u64_edge!(c13_vie_group_seq_u64_n1_w8, quick, 12, GroupVarint, 1, [ub(8)]);
+c13_vie_seq_u64_edge!(c13_vie_group_seq_u64_n1_w5, quick, 12, GroupVarint, 1, 7, [ub(5)]);
+c13_vie_seq_u64_edge!(c13_vie_group_seq_u64_n1_w8, quick, 12, GroupVarint, 1, 10, [ub(8)]);
 c13_vie_seq_u64!(c13_vie_group_seq_u64_n2_w4_w4, thorough, 12, GroupVarint, 2, 10, [ub(4), ub(4)]);
-c13_vie_seq_u64_edge!(c13_vie_group_seq_u64_n2_w1_w8, thorough, 12, GroupVarint, 2, [ub(1), ub(8)]);
+c13_vie_seq_u64_edge!(c13_vie_group_seq_u64_n2_w1_w8, thorough, 12, GroupVarint, 2, 11, [ub(1), ub(8)]);
 c13_vie_seq_u64!(c13_vie_group_seq_u64_n4_w1_w2_w3_w4, thorough, 12, GroupVarint, 4, 12, [ub(1), ub(2), ub(3), ub(4)]);
 c13_vie_seq_u64!(c13_vie_group_seq_u64_n5_w1, quick, 12, GroupVarint, 5, 8, [ub(1), ub(1), ub(1), ub(1), ub(1)]);
 c13_vie_seq_i64!(c13_vie_group_seq_i64_n1_pos_w4, thorough, 12, GroupVarint, 1, 6, [(1i64 << 24, (1i64 << 32) - 1)]);
